@@ -585,7 +585,7 @@ class BrowseableItem:
         instance = subclass(
             **hci.HCI_Object.dict_from_bytes(data, offset + 3, subclass.fields)
         )
-        instance._payload = data[3:]
+        instance._payload = data[offset + 3 : offset + 3 + length]
         return offset + length + 3, instance
 
     def __bytes__(self) -> bytes:
@@ -1555,7 +1555,9 @@ class PlayerApplicationSettingChangedEvent(Event):
                 case ApplicationSetting.AttributeId.SCAN_ON_OFF:
                     self.value_id = ApplicationSetting.ScanOnOffStatus(self.value_id)
                 case _:
-                    self.value_id = ApplicationSetting.GenericValue(self.value_id)
+                    # Vendor-defined attribute: GenericValue has no members, so it
+                    # cannot be called; keep the plain value.
+                    self.value_id = int(self.value_id)
 
     player_application_settings: Sequence[Setting] = field(
         metadata=hci.metadata(Setting.parse_from_bytes, list_begin=True, list_end=True)
